@@ -23,16 +23,17 @@ func init() {
 }
 
 type metaCase struct {
-	kind      string
-	tree      Tree   // include/exclude files + config
-	a, b      string // the two program texts
-	resA      CLIResult
-	resB      CLIResult
-	input     map[string]interface{}
-	expectA   string // "" | "fail": A must fail
-	fsArg     string
-	cfg       [6]string
-	orderFail string
+	kind       string
+	tree       Tree   // include/exclude files + config
+	a, b       string // the two program texts
+	resA       CLIResult
+	resB       CLIResult
+	input      map[string]interface{}
+	expectA    string // "" | "fail": A must fail
+	fsArg      string
+	cfg        [6]string
+	orderFail  string
+	runsDiffer string
 }
 
 // parseWithRoot runs the real parser (compile mode) with include/exclude files below root
@@ -383,7 +384,7 @@ func suiteC06Except(env *Env, res *Result) {
 	res.Rule = "word-list include files (duplicates, blank lines, comments, own definitions) x 0..3 exclude files (overlapping, disjoint, empty, larger than F, using F's definitions) x non-interfering suffix-replacement pair lists (incl. the empty marker) on include and include-except: `generate` of the program vs. `generate` of the program in which the harness did the set difference and the suffix rewrite by hand; bytes, else the verified equivalence checker. Every program also runs through the Gallina model"
 	r := NewRng(env.Seed + 606)
 	n := env.N(120, 4000)
-	words := []string{"ls", "cat", "time", "apt-get", "ps", "nc", "curl@", "wget@", "sh~", "bash~", "dd", "id@", "x{{d}}", "y{{d}}z"}
+	words := []string{"ls", "cat", "time", "apt-get", "ps", "nc", "curl@", "wget@", "sh~", "bash~", "dd", "id@", "x{{d}}", "y{{d}}z", "cmd ", "sel\t", "cmd"}
 	var cases []*metaCase
 	for i := 0; i < n; i++ {
 		withDef := r.Chance(1, 4)
@@ -411,6 +412,14 @@ func suiteC06Except(env *Env, res *Result) {
 		if wantTwo {
 			flines = append(flines, "x{{d}}")
 		}
+		if r.Chance(1, 4) && len(flines) > 0 {
+			// a repeated line with further lines behind it (the position of a repeated line is that of
+			// its LAST occurrence; the lines behind it must still come after it)
+			flines = append(flines, flines[len(flines)-1], "zeta", "eta")
+			if r.Chance(1, 2) {
+				flines = append(flines, flines[0], "theta")
+			}
+		}
 		ftext := strings.Join(flines, "\n") + "\n"
 		tree := Tree{"regex-assembly/include/": "", "regex-assembly/exclude/": "", "regex-assembly/include/f.ra": ftext}
 		nx := r.Range(0, 3)
@@ -432,7 +441,7 @@ func suiteC06Except(env *Env, res *Result) {
 					}
 					xl = append(xl, src)
 				} else {
-					xl = append(xl, r.Pick(words[:11]))
+					xl = append(xl, r.Pick(append(append([]string{}, words[:11]...), "cmd ", "sel\t", "cmd")))
 				}
 			}
 			if wantTwo && k == 0 {
@@ -589,10 +598,16 @@ func suiteC06Except(env *Env, res *Result) {
 				directive = l
 			}
 		}
+		firstOut := ""
 		for k := 0; k < 12; k++ {
 			out, ok := parseWithRoot(root, directive+"\n")
 			if !ok {
 				return
+			}
+			if k == 0 {
+				firstOut = out
+			} else if out != firstOut && c.runsDiffer == "" {
+				c.runsDiffer = fmt.Sprintf("two executions of the parser on the same directive give %q and %q", firstOut, out)
 			}
 			got := strings.Split(strings.TrimSuffix(out, "\n"), "\n")
 			if out == "" {
@@ -614,6 +629,9 @@ func suiteC06Except(env *Env, res *Result) {
 	for _, c := range cases {
 		if c.orderFail != "" {
 			res.addFailure(Failure{Kind: "C06", Shape: "c06_order_not_preserved", Input: c.input, Detail: c.orderFail})
+		}
+		if c.runsDiffer != "" {
+			res.addFailure(Failure{Kind: "C03", Shape: "include_except_runs_differ", Input: c.input, Detail: c.runsDiffer})
 		}
 	}
 	runMeta(env, res, cases, "C06", func(c *metaCase) string { return "c06_differs_from_by_hand" })
